@@ -5,6 +5,8 @@ length in a field narrower than the value it holds (`entries.len() as u8`) write
 fit, and the parser reads back that other number - fewer keys, a shorter string, a record table that no longer lines up. R1 decides, for every
 narrowing cast to u8 / u16 in the writer closure, that the value is established to fit on every path (E-bounds), or reports the site.
 
+R2 (E-count): a stored count that mirrors the length of a sibling collection is re-written after every length-changing operation.
+
 NOT decided: round-trip equality itself, canonical forms, accepted-but-non-canonical inputs, byte-exact rebuilds of CDN files."""
 import re
 from .facts import op_local, Slice
@@ -137,6 +139,10 @@ def r1_no_silent_narrowing(ctx, prefix="cascette_formats", entries=None, floor=8
 
 def run(ctx):
     r1_no_silent_narrowing(ctx)
+    # R2 = E-count (rules/redundant.py): a stored count that some body assigns from the length of a sibling Vec is re-written after every operation
+    # that changes that length - the serialiser writes the count in front of the records that are present, the parser believes the count
+    from . import redundant
+    redundant.rule_counts(ctx, "C08.R2", ["cascette_formats"], floor=3)
 
 
 def selftest(ctx):
@@ -149,4 +155,13 @@ def selftest(ctx):
     bad = {v.key.split("|")[1].split("::")[-1] for v in sub.violations}
     for i in items:
         (ctx.bad if i in bad else ctx.ok)("ST.narrow", [i], "reported" if i in bad else "silent", body(ctx, i).loc())
-    return {"must_report": ["ST.narrow|narrow_len_bad"], "must_not_report": ["ST.narrow|narrow_len_guarded_ok", "ST.narrow|narrow_len_min_ok", "ST.narrow|narrow_emit_bytes_ok"]}
+    from . import redundant
+    sub2 = Ctx(ctx.prog, ctx.prop, ctx.tier, selftest=True)
+    n2 = redundant.rule_counts(sub2, "ST.count", ["verif_selftest"])
+    if n2 < 3:
+        raise RuntimeError("selftest: E-count found %d length-changing operations in the witness crate, expected at least 3" % n2)
+    bad2 = {v.key.split("|")[1].split("::")[-1] for v in sub2.violations}
+    for i in ("counted_add_ok", "counted_remove_bad", "counted_remove_ok"):
+        (ctx.bad if i in bad2 else ctx.ok)("ST.count", [i], "reported" if i in bad2 else "silent", body(ctx, i).loc())
+    return {"must_report": ["ST.narrow|narrow_len_bad", "ST.count|counted_remove_bad"],
+            "must_not_report": ["ST.narrow|narrow_len_guarded_ok", "ST.narrow|narrow_len_min_ok", "ST.narrow|narrow_emit_bytes_ok", "ST.count|counted_add_ok", "ST.count|counted_remove_ok"]}
